@@ -3,3 +3,4 @@ import Driver.Tabular
 import Driver.Wrappers
 import Driver.Replay
 import Driver.Batching
+import Driver.OnPolicy
